@@ -3072,7 +3072,10 @@ class Taylor(Output):
                 crmseLabel = "CRMSE"
                 minCrmseLabel = "Min CRMSE"
 
-            maxstd = max(maxstd, max(std))
+            # A slice with constant observations has an infinite normalized standard deviation: it does not set the radius
+            finite_std = std[np.isfinite(std)]
+            if len(finite_std) > 0:
+                maxstd = max(maxstd, max(finite_std))
             ang = np.arccos(corr)
             x = std * np.cos(ang)
             y = std * np.sin(ang)
